@@ -89,6 +89,7 @@ type Interp struct {
 	astTypes map[reflect.Type]*types.Struct
 	l1 *l1Prog
 	syncMaps map[string]*MapV
+	syncPools map[string][]Value
 	curFn *ssa.Function
 	posOverride map[*token.FileSet]posAnswer
 	matchers map[*ahocorasick.Matcher][]string
